@@ -24,7 +24,7 @@ EXHAUSTIVE = False
 RULE = (
     "generated modules (failing line first / middle / last in the file, inside nested and tab-indented functions, after "
     "multi-line strings, bracketed and backslash continuations, with comments, non-ASCII, markup-like text, very long lines; "
-    "empty file; file deleted after import; module under a path that spells style markup; exec-compiled source-less code under 10 file names (markup-like: '</error>', '<b>', 'a</info>b', ...), as the failing or as a middle frame; failure while importing) x statements {raise "
+    "empty file; file deleted after import; module under a path that spells style markup; Latin-1 encoded modules with a coding cookie; callers whose call line opens a multi-line statement with markup-like arguments; code objects naming an existing non-Python file; exec-compiled source-less code under 10 file names (markup-like: '</error>', '<b>', 'a</info>b', ...), as the failing or as a middle frame; failure while importing) x statements {raise "
     "ValueError/KeyError/custom, 1/0, assert, raise ... from} x messages {plain, multi-line, non-ASCII, balanced / opening / "
     "closing / crossed style tags, escaped tag, 5 kB, empty} x exception object {as raised; every third case re-raised as one of 19 unusual types: providing a solution (5 title/description/link texts, rendered with a solution-provider repository), being a solution, KeyboardInterrupt / SystemExit subclasses, ExceptionGroup, OSError with file name, UnicodeDecodeError, SyntaxError, class names made with type() (markup-like, non-ASCII), overridden __str__, with notes, without / with two arguments} x recursion depth 1-60 (direct and mutual) x verbosity x UTF-8 "
     "on/off x simple/full x ANSI/plain x ignore pattern. Clauses: render never raises; class name and message present "
@@ -101,12 +101,12 @@ def gen_module(rng):
     else:
         lines = HEADER + filler(rng.randint(0, 8) if rng.random() < 0.8 else rng.randint(40, 1200))
         if pos == "nested":
-            lines += ["def fail():", "    def inner(n):"] + filler(rng.randint(0, 4), "        ") + ["        " + stmt + "  #FAIL"] + filler(rng.randint(0, 5), "        ")
+            lines += ["def fail(*a):", "    def inner(n):"] + filler(rng.randint(0, 4), "        ") + ["        " + stmt + "  #FAIL"] + filler(rng.randint(0, 5), "        ")
             lines += ["    return inner(3)"]
         elif pos == "tabs":
-            lines += ["def fail():"] + filler(rng.randint(0, 4), "\t") + ["\tif True:", "\t\t" + stmt + "  #FAIL"] + filler(rng.randint(0, 5), "\t")
+            lines += ["def fail(*a):"] + filler(rng.randint(0, 4), "\t") + ["\tif True:", "\t\t" + stmt + "  #FAIL"] + filler(rng.randint(0, 5), "\t")
         else:
-            lines += ["def fail():"] + filler(rng.randint(0, 6), "    ") + ["    " + stmt + "  #FAIL"]
+            lines += ["def fail(*a):"] + filler(rng.randint(0, 6), "    ") + ["    " + stmt + "  #FAIL"]
             if pos != "last":
                 lines += filler(rng.randint(0, 6), "    ") + filler(rng.randint(0, 4))
         entry = "fail"
@@ -116,14 +116,24 @@ def gen_module(rng):
                 ["def outer():", "    return fail(", "    )"],
                 ["def outer():", "    return {", "        'k': fail(),", "    }"],
                 ["def outer():", "    value = [fail()", "             for _ in range(1)]", "    return value"],
+                # the call line is the first line of a multi-line statement and carries markup-like text
+                ["def outer():", "    return fail(\"<error>\", \"</b>\", (", "        1,", "    ))"],
+                ["def outer():", "    return fail('</info>', [", "        '<b>',", "    ])"],
             ])
             entry = "outer"
     fail_line = next(i for i, l in enumerate(lines) if l.endswith("#FAIL")) + 1
+    latin1 = False
     if rng.random() < 0.3:
         # a file whose non-ASCII characters all fit one byte in Latin-1 (decoding guesses must not turn them into something else)
         lines = ["".join(c if ord(c) < 256 else "\u00e9" for c in l) for l in lines]
+        if rng.random() < 0.3:
+            # ... stored in that encoding, with the coding cookie as the first line
+            latin1 = True
+            lines.insert(0, "# -*- coding: latin-1 -*-")
+            fail_line += 1
+            lines.append("# caf\u00e9")
     text = "\n".join(lines) + ("" if (pos == "last" or rng.random() < 0.2) else "\n")
-    return dict(source=text, fail_line=fail_line, entry=entry, shape=(pos, stmt_kind, len(lines)), stmt=stmt_kind, pos=pos)
+    return dict(source=text, fail_line=fail_line, entry=entry, shape=(pos, stmt_kind, len(lines)), stmt=stmt_kind, pos=pos, latin1=latin1)
 
 
 def single_token_lines(source):
@@ -164,9 +174,14 @@ class Env(object):
         self.relay = importlib.util.module_from_spec(spec)
         spec.loader.exec_module(self.relay)
 
-    def write_module(self, source, odd_path=False):
+    def write_module(self, source, odd_path=False, latin1=False):
         self.counter += 1
         path = os.path.join(self.workdir, "m%06d_%d.py" % (self.counter, os.getpid()))
+        if latin1:
+            # a source file in Latin-1 with its coding cookie (legal Python; not decodable as UTF-8)
+            with open(path, "wb") as f:
+                f.write(source.encode("latin-1"))
+            return path
         if odd_path:
             # a directory and a file name that together spell style markup in the path: .../a</info>b_<n>.py, .../x<b>/m.py
             d, f = [("a<", "info>b_%06d.py"), ("x<b>", "m%06d.py"), ("<error>", "e%06d.py"), ("y<", "error>%06d.py"), ("z<", ">%06d.py")][self.counter % 5]
@@ -179,7 +194,7 @@ class Env(object):
 
 def raise_from(env, mod_case, message, depth, mode, rng):
     """Runs the generated module so that it fails; returns (exception, path, source_available)."""
-    path = env.write_module(mod_case["source"], odd_path=(mode == "odd-path"))
+    path = env.write_module(mod_case["source"], odd_path=(mode == "odd-path"), latin1=bool(mod_case.get("latin1")))
     name = "c20_m%d" % env.counter
     spec = importlib.util.spec_from_file_location(name, path)
     mod = importlib.util.module_from_spec(spec)
@@ -229,6 +244,9 @@ def raise_from(env, mod_case, message, depth, mode, rng):
 
 
 SOURCELESS_NAMES = ["<generated-no-file>", "<string>", "</error>", "<b>", "a</info>b", "</>", "<fg=red>x", "no-such-file.py", "<info>", "ends\\"]
+
+
+NOT_PYTHON = "<html>\n{{ it's broken \'\'\' }}\n<b>(\n</html>\n"
 
 
 def exec_sourceless(message, kind, filename="<generated-no-file>", middle=False):
@@ -522,6 +540,12 @@ def run_renders(sh, env, n):
             # source-less code and empty / odd files
             kind = rng.choice(["ValueError", "KeyError", "RuntimeError"])
             fname = SOURCELESS_NAMES[(i // 10) % len(SOURCELESS_NAMES)]
+            if (i // 10) % 4 == 3:
+                # the code object names an existing file that is not Python (a template engine does that)
+                fname = os.path.join(env.workdir, "template_%d.html" % i)
+                with open(fname, "w") as fh:
+                    fh.write(NOT_PYTHON)
+                sh.count("frames_in_non_python_files")
             middle = (i // 10) % 3 == 2
             if middle:
                 kind = "ValueError"
